@@ -6,7 +6,7 @@
    soundness theorems over the plain tree [mroot] are not yet proved (stated below as the
    checked, bounded obligations they currently are). *)
 From Coq Require Import List NArith.
-From Sia Require Import Prim.Tok Merkle.Tree Merkle.Forest Merkle.Rhp Merkle.RhpProofs Merkle.RhpRoot Merkle.RgComplete Merkle.RgSound Merkle.RgSound2 Merkle.RgAppend Merkle.RgGap Merkle.RgMulti Merkle.RgDiff2 Merkle.RgDiff3.
+From Sia Require Import Prim.Tok Merkle.Tree Merkle.Forest Merkle.Rhp Merkle.RhpProofs Merkle.RhpRoot Merkle.RgComplete Merkle.RgSound Merkle.RgSound2 Merkle.RgAppend Merkle.RgGap Merkle.RgMulti Merkle.RgDiff2 Merkle.RgDiff3 Merkle.RgRpv1 Merkle.RgRpv2.
 Import ListNotations.
 
 Theorem C16_accumulator_is_forest : forall H L ds xs, Repr hash (node H) L ds ->
@@ -249,3 +249,31 @@ Theorem C16_leaf_proof_sound : forall H (ls : list hash) i proof leaf, N.of_nat 
   (leaf = nth (N.to_nat i) ls zero_hash /\ proof = build_range_proof H ls i (i + 1)) \/ RgSound.NodeCollision H.
 Proof. exact leaf_proof_sound. Qed.
 Print Assumptions C16_leaf_proof_sound.
+
+(* ---- rhp/v2 RangeProofVerifier (streaming verification of a leaf range of one sector) ---- *)
+(* inserting the root of an aligned block of 2^h hashes is inserting the hashes one by one, whatever the accumulator holds *)
+Theorem C16_block_insert_is_leaf_inserts : forall H (h : nat) (l : list hash) ds, length l = Nat.pow 2 h -> lowfree h ds ->
+  fold_left (fun a x => insert_node H x 0 a) l ds = insert_node H (mroot H l) h ds.
+Proof. exact ins_block. Qed.
+Print Assumptions C16_block_insert_is_leaf_inserts.
+
+(* Verify over the subtree roots of the data read = VerifySectorRangeProof over the leaf hashes read, for every proof,
+   honest or not, every range and every power-of-two leaf count up to 2^30 (a sector has 2^16) *)
+Theorem C16_range_proof_verifier_is_range_verifier : forall H (k : N) (proof lv : list hash) s e root,
+  (1 <= k)%N -> (k <= 30)%N -> (s < e)%N -> (e <= 2 ^ k)%N -> N.of_nat (length lv) = (e - s)%N ->
+  rpv_verify H proof lv s e (2 ^ k) root = verify_range_proof H proof lv s e (2 ^ k) root.
+Proof. exact rpv_is_range. Qed.
+Print Assumptions C16_range_proof_verifier_is_range_verifier.
+
+Theorem C16_range_proof_verifier_complete : forall H (k : N) (ls : list hash) s e,
+  (1 <= k)%N -> (k <= 30)%N -> N.of_nat (length ls) = (2 ^ k)%N -> (s < e)%N -> (e <= 2 ^ k)%N ->
+  rpv_verify H (build_range_proof H ls s e) (slice ls s (e - s)) s e (2 ^ k) (mroot H ls) = true.
+Proof. exact rpv_complete. Qed.
+Print Assumptions C16_range_proof_verifier_complete.
+
+Theorem C16_range_proof_verifier_sound : forall H (k : N) (ls proof lv : list hash) s e,
+  (1 <= k)%N -> (k <= 30)%N -> N.of_nat (length ls) = (2 ^ k)%N -> (s < e)%N -> (e <= 2 ^ k)%N ->
+  N.of_nat (length lv) = (e - s)%N -> rpv_verify H proof lv s e (2 ^ k) (mroot H ls) = true ->
+  (lv = slice ls s (e - s) /\ proof = build_range_proof H ls s e) \/ RgSound.NodeCollision H.
+Proof. exact rpv_sound. Qed.
+Print Assumptions C16_range_proof_verifier_sound.
